@@ -63,7 +63,7 @@ Lemma step_safe e s x :
   inv s -> static_ok e -> peer_ok e s x = true ->
   exists s', client_step e s x = (s', None) /\ inv s'.
 Proof.
-  intros I (Hd & Hi0 & Hi) P. destruct x as [ty n | ty n | n | len | k w | | d pidle pto3]; simpl in P |- *.
+  intros I (Hd & Hi0 & Hi) P. destruct x as [ty n | ty n | n | k | len | k w | | d pidle pto3]; simpl in P |- *.
   - (* EvData *)
     apply andb_prop in P as [P Pc]. apply andb_prop in P as [P Ps]. apply andb_prop in P as [Pn Po].
     assert (Ho : (ty =? 0) || fits_client s (cnt_kind ty) (implicit_open s ty) = true).
@@ -85,6 +85,9 @@ Proof.
     apply andb_prop in P as [_ P]. rewrite (fits_peer_client _ _ _ I P). simpl.
     eexists. split; [reflexivity|]. apply inv_bump. exact I.
   - (* EvCID *)
+    apply andb_prop in P as [_ P]. rewrite (fits_peer_client _ _ _ I P). simpl.
+    eexists. split; [reflexivity|]. apply inv_bump. exact I.
+  - (* EvCIDRotate *)
     apply andb_prop in P as [_ P]. rewrite (fits_peer_client _ _ _ I P). simpl.
     eexists. split; [reflexivity|]. apply inv_bump. exact I.
   - (* EvDgram *)
@@ -415,4 +418,27 @@ Theorem record_equals_wire_limits o ps :
 Proof.
   intros H W. exists (redraw o ps). unfold override_bytes, wire_bytes.
   rewrite (parse_marshal _ (wf_redraw o ps H W)). rewrite !kv_of_redraw. repeat split; reflexivity.
+Qed.
+
+(** * Every dial derives its own list from the spec's (untouched) list *)
+
+Lemma fill_iscid_fst (scid : list Z) (q : tparam) :
+  fst (if (fst q =? tpInitialSourceConnectionID) && (match snd q with [] => true | _ :: _ => false end)
+       then (fst q, scid) else q) = fst q.
+Proof. destruct ((fst q =? tpInitialSourceConnectionID) && _); reflexivity. Qed.
+
+Lemma dial_list_not_suppressed sup scid ps p :
+  In p (dial_list sup scid ps) -> suppressed sup (fst p) = false.
+Proof.
+  unfold dial_list, fill_iscid, suppress_list. intros H. apply in_map_iff in H as (q & E & I).
+  apply filter_In in I as [_ N]. subst p. rewrite fill_iscid_fst. apply negb_true_iff. exact N.
+Qed.
+
+Lemma dial_list_own_scid sup scid ps :
+  (forall q, In q ps -> fst q = tpInitialSourceConnectionID -> snd q = []) ->
+  forall p, In p (dial_list sup scid ps) -> fst p = tpInitialSourceConnectionID -> snd p = scid.
+Proof.
+  unfold dial_list, fill_iscid, suppress_list. intros E p H F. apply in_map_iff in H as (q & Eq & I).
+  apply filter_In in I as [I _]. subst p. rewrite fill_iscid_fst in F.
+  rewrite F, Z.eqb_refl, (E q I F). reflexivity.
 Qed.
